@@ -92,8 +92,18 @@ def build(rnd, root, file_entries=False):
                 os.mkdir(sp)
                 ign = ignored or sub in IGN or _matches(rules, sp)
                 if sub.startswith('ign') and not ign:
-                    form = rnd.choice([sub, '/' + sub, sub + '/', 'REL'])
-                    if form == 'REL' and depth >= 1:
+                    form = rnd.choice([sub, '/' + sub, sub + '/', 'REL', 'UP', 'UP'])
+                    if form == 'UP' and depth >= 1:
+                        # relative entry (with or without trailing slash) written into the
+                        # .gitignore of an ancestor directory: matches at any depth below it
+                        chain = [root]
+                        for part in os.path.relpath(d, root).split(os.sep):
+                            chain.append(os.path.join(chain[-1], part))
+                        anc = rnd.choice(chain[:-1])
+                        with open(os.path.join(anc, '.gitignore'), 'a') as f:
+                            f.write(rnd.choice([sub, sub + '/']) + '\n')
+                        rules = rules + [('rel', anc, sub)]
+                    elif form == 'REL' and depth >= 1:
                         # anchored entry with a slash, written one level up
                         up = os.path.dirname(d)
                         entry = os.path.basename(d) + '/' + sub
@@ -101,7 +111,7 @@ def build(rnd, root, file_entries=False):
                             f.write(entry + '\n')
                         rules = rules + [('abs', os.path.join(up, entry))]
                     else:
-                        form = sub if form == 'REL' else form
+                        form = sub if form in ('REL', 'UP') else form
                         with open(os.path.join(d, '.gitignore'), 'a') as f:
                             f.write('# comment\n' + form + '\n')
                         bare = form.rstrip('/')
